@@ -1133,6 +1133,7 @@ class Object( object ):
                 # Get Attribute List.  Collect up the bytes representing the attributes.  Converts a
                 # placehold .get_attribute_list = [<attribute>,...] list of attribute numbers with
                 # real dotdict containing a sequence of .data.
+                result	       += UINT.produce( len( data.get_attribute_list )) # number of attribute responses
                 for a_id in data.get_attribute_list:
                     result     += UINT.produce( a_id )
                     if str(a_id) not in self.attribute:
